@@ -355,7 +355,8 @@ def equivalence_lane(ctx, thorough):
           ctx.fail_input('equivalent_arraylikes', 'fit on %s data raises %s' % (vn, type(ex).__name__),
                          dict(estimator=name, representation=vn), observed=str(ex)[:200])
           continue
-        same = got.shape == ref.shape and np.allclose(got, ref, rtol=1e-7, atol=1e-9 * (np.abs(ref).max() + 1e-300), equal_nan=True)
+        same = got.shape == ref.shape and (ref.size == 0 or np.allclose(   # SCML may keep no basis element: (0, d)
+            got, ref, rtol=1e-7, atol=1e-9 * (np.abs(ref).max() + 1e-300), equal_nan=True))
         if not same:
           ctx.fail_input('equivalent_arraylikes', 'fit on %s data gives a different model' % vn,
                          dict(estimator=name, representation=vn, X=np.asarray(X).tolist()),
